@@ -439,6 +439,9 @@ fn check_triple(t: &Triple, ctx: &mut CaseCtx<'_>) -> Result<(), String> {
     if !t.ctx.neighbours.is_empty() {
         ctx.label("dirty:neighbour_config");
     }
+    if t.ctx.neighbours.len() >= 3 {
+        ctx.label("dirty:neighbours_enumerated");
+    }
     if boundary_seeds().contains(&t.seed) {
         ctx.label("seed:boundary");
     }
@@ -684,6 +687,42 @@ fn neighbour(hname: &'static str, seed: u64, preset: &str, n: u32, field: u8, pi
     w
 }
 
+/// The parameterised form of a configuration, where the driver has one (the preset constructors of
+/// redis_dst are points in the same parameter space).
+fn param_form(hname: &str, preset: &str) -> Option<String> {
+    if hname != "redis_dst" {
+        return None;
+    }
+    Some(match preset {
+        p if p.contains('=') => p.to_string(),
+        "zipf" => "kd=zipf,keys=1000,skew=1,nodes=5,faults=moderate".to_string(),
+        "uniform" => "kd=uniform,keys=50,skew=1,nodes=4,faults=moderate".to_string(),
+        "calm" => "kd=zipf,keys=1000,skew=1,nodes=3,faults=calm".to_string(),
+        "chaos" => "kd=zipf,keys=1000,skew=1,nodes=6,faults=chaos".to_string(),
+        _ => return None,
+    })
+}
+
+/// ENUMERATED neighbours: one warm-up per configuration field of the run under test — the seed,
+/// n, and the preset (for a parameterised configuration: one per parameter, each keeping all
+/// the other parameters, so "same num_keys, other skew" and "same skew, other num_keys" are
+/// both always present). `pick` only selects WHICH other value a field takes.
+fn neighbours_all(hname: &'static str, seed: u64, preset: &str, n: u32, pick: u16) -> Vec<dirty::Warm> {
+    let mut v = vec![neighbour(hname, seed, preset, n, 0, pick), neighbour(hname, seed, preset, n, 2, pick)];
+    match param_form(hname, preset) {
+        Some(pf) => {
+            let nparams = pf.split(',').count() as u16;
+            for which in 0..nparams {
+                // `neighbour` changes parameter number (pick % nparams); keep the rest of pick
+                let p = (pick / nparams.max(1)) * nparams + which;
+                v.push(neighbour(hname, seed, &pf, n, 1, p));
+            }
+        }
+        None => v.push(neighbour(hname, seed, preset, n, 1, pick)),
+    }
+    v
+}
+
 fn triple_strategy(hname: &'static str, thorough: bool) -> impl Strategy<Value = Triple> {
     let d = def(hname).expect("harness");
     let presets = d.presets;
@@ -696,15 +735,21 @@ fn triple_strategy(hname: &'static str, thorough: bool) -> impl Strategy<Value =
         dirty_strategy(),
         // generated configuration (harnesses whose API takes more than a preset constructor)
         proptest::option::weighted(0.6, (any::<u8>(), any::<u8>(), any::<u8>(), any::<u8>(), any::<u8>())),
-        // neighbouring configurations of the same harness run before the dirty run
+        // neighbouring configurations of the same harness run before the dirty run: sampled ...
         proptest::collection::vec((0u8..3, any::<u16>()), 0..=3),
+        // ... or (half of the triples; always for parameterised configurations) enumerated
+        (any::<bool>(), any::<u16>()),
     )
-        .prop_map(move |(seed, pi, n, mut ctx, params, nb)| {
+        .prop_map(move |(seed, pi, n, mut ctx, params, nb, (enumerate, epick))| {
             let preset = match (hname, params) {
                 ("redis_dst", Some((a, b, c, d, e))) => redis_dst_preset(a, b, c, d, e),
                 _ => presets[(pi as usize * presets.len()) >> 16].to_string(),
             };
-            ctx.neighbours = nb.iter().map(|(f, p)| neighbour(hname, seed, &preset, n, *f, *p)).collect();
+            ctx.neighbours = if enumerate || param_form(hname, &preset).is_some() {
+                neighbours_all(hname, seed, &preset, n, epick)
+            } else {
+                nb.iter().map(|(f, p)| neighbour(hname, seed, &preset, n, *f, *p)).collect()
+            };
             Triple {
                 harness: hname.to_string(),
                 seed,
